@@ -97,6 +97,14 @@ RClient(svcs) ==
            xr |-> xr] : xr \in { Pick({x \in XrSet(svcs) : \A i \in 1..Len(svcs) : (x[i].ok /\ x[i].ref) => Len(svcs) >= 2}) } })
 
 RECURSIVE HitAll(_, _)
+\* two edits of the SAME criterion of the same rule, one after the other (e.g. add a criterion, then change it in place:
+\* the second reload meets the hooks installed - or not - by the first)
+CritAt(l, i, key) == [l EXCEPT ![i][key] = PickOr(PoolOf(key) \ {l[i][key]}, PoolOf(key))]
+SameCrit(old) == IF old = << >> THEN << [l |-> old, k |-> "same"], [l |-> old, k |-> "same"] >>
+                 ELSE The({ The({ << [l |-> m1, k |-> "crit"], [l |-> CritAt(m1, ik[1], ik[2]), k |-> "crit:again"] >> :
+                                  m1 \in {CritAt(old, ik[1], ik[2])} }) :
+                            ik \in {<< Pick(1..Len(old)), Pick(EditKeys) >>} })
+
 HitAll(svcs, l) == IF l = << >> THEN << >> ELSE << HitClient(svcs, l[1]) >> \o HitAll(svcs, Tail(l))
 
 \* what the implementation-shaped spec predicts for client c under table l, and how many rules match (computed once per
@@ -107,8 +115,9 @@ NmOf(l, c) == Cardinality(Matching(Range(l), c))
 GenInit == /\ gk \in 1..GenN
            /\ \E sv \in {SvcChoices[Pick(1..Len(SvcChoices))]} :
               \E old \in {RSection(gk)} :
-              \E e1 \in {Edit(old)} :
-              \E e2 \in {Edit(e1.l)} :
+              \E sc \in {IF Pick(1..4) = 1 THEN SameCrit(old) ELSE << >>} :
+              \E e1 \in {IF sc # << >> THEN sc[1] ELSE Edit(old)} :
+              \E e2 \in {IF sc # << >> THEN sc[2] ELSE Edit(e1.l)} :
               \E cl \in {HitAll(sv, e1.l) \o HitAll(sv, e2.l) \o [j \in 1..GenM |-> RClient(sv)]} :
                  /\ gsv = sv
                  /\ gchain = << old, e1.l, e2.l >>
